@@ -16,7 +16,8 @@ BUDGET_S = {"quick": 50, "thorough": 600}
 RULE = (
     "A Hypothesis rule-based state machine over four stores - L = LocalHashFileDB/md5, G = HashFileDB/md5 on "
     "the local fs, D = LocalHashFileDB/md5-dos2unix (legacy), X = LocalHashFileDB/sha256 (migration target) - "
-    "and a pool of 2-4 materialised trees/files drawn per history (nesting, duplicate contents, empty files, "
+    "a per-history choice between no hash-state and one real State database shared by all four stores (as in a "
+    "DVC repository), and a pool of 2-4 materialised trees/files drawn per history (nesting, duplicate contents, empty files, "
     "odd/non-ASCII names, CRLF text). Rules (<= 12 per history): stage+transfer (shallow or not), "
     "build(upload=True)+transfer, direct add under the id an honest caller computes (optionally hard-linked), "
     "store->store transfer of a drawn id subset (shallow/expanded, hardlink), index build->md5->save of a "
@@ -61,10 +62,8 @@ def _pool():
 class C01Machine(TraceMachine):
     # ---- set-up --------------------------------------------------------------------------
     def on_setup(self):
-        self.odbs = []
-        for label, kind, algo in STORES:
-            cfg = {} if algo == "md5" else {"hash_name": algo}
-            self.odbs.append(ops.make_odb(kind, os.path.join(self.dir, "store" + label), **cfg))
+        self.state = None
+        self._make_stores()
         self.pool = []          # [(path, isdir, flat {rel: bytes} | bytes)]
         self.files = []         # [(path, bytes)] every regular file of the pool
         self.file_bytes = set()
@@ -75,9 +74,27 @@ class C01Machine(TraceMachine):
         self.saw_dir = False
         self.temps = 0
 
-    @initialize(pool=_pool())
+    def _make_stores(self):
+        self.odbs = []
+        for label, kind, algo in STORES:
+            cfg = {} if algo == "md5" else {"hash_name": algo}
+            if self.state is not None:
+                cfg["state"] = self.state
+            self.odbs.append(ops.make_odb(kind, os.path.join(self.dir, "store" + label), **cfg))
+
+    def on_cleanup(self):
+        if self.state is not None:
+            self.state.close()
+            self.state = None
+
+    @initialize(pool=_pool(), state=st.booleans())
     @traced
-    def init(self, pool):
+    def init(self, pool, state=False):
+        if state and self.state is None:
+            # one real State database shared by every store of the history, as in a DVC repository
+            self.state = ops.make_state(self.dir, os.path.join(self.dir, "state"))
+            self._make_stores()
+            self.labels.add("shared-state")
         for i, it in enumerate(pool):
             p = os.path.join(self.dir, "pool", str(i), "t")
             if "t" in it:
